@@ -202,7 +202,9 @@ static int astep_log(const char* fn, int kind, const volatile void* addr, uintpt
       vf_logf("{\"e\":\"astep\",\"t\":%d,\"f\":\"%s\",\"k\":\"and\",\"w\":\"free\",\"hit\":[", cur_t, fn);
       int first = 1;
       for (int b = 0; b < 64; b++) if (hit & ((uintptr_t)1 << b)) { vf_logf("%s%d", first ? "" : ",", step_asegid((uintptr_t)ar->start + (f * 64 + (size_t)b) * MI_ARENA_BLOCK_SIZE)); first = 0; }
-      vf_logf("],\"miss\":[]}"); vf_log_line_end();
+      vf_logf("],\"miss\":[],\"key\":["); first = 1;
+      for (int b = 0; b < 64; b++) if (hit & ((uintptr_t)1 << b)) { vf_logf("%s%ld", first ? "" : ",", (long)(((uintptr_t)ar->start + (f * 64 + (size_t)b) * MI_ARENA_BLOCK_SIZE) >> 25)); first = 0; }
+      vf_logf("]}"); vf_log_line_end();
       return 1;
     }
     if (a >= (uintptr_t)ar->blocks_abandoned && a < (uintptr_t)(ar->blocks_abandoned + ar->field_count)) {
@@ -215,6 +217,8 @@ static int astep_log(const char* fn, int kind, const volatile void* addr, uintpt
       for (int b = 0; b < 64; b++) if (hit & ((uintptr_t)1 << b)) { vf_logf("%s%d", first ? "" : ",", step_asegid((uintptr_t)ar->start + (f * 64 + (size_t)b) * MI_ARENA_BLOCK_SIZE)); first = 0; }
       vf_logf("],\"miss\":["); first = 1;
       for (int b = 0; b < 64; b++) if ((target & ~hit) & ((uintptr_t)1 << b)) { vf_logf("%s%d", first ? "" : ",", step_asegid((uintptr_t)ar->start + (f * 64 + (size_t)b) * MI_ARENA_BLOCK_SIZE)); first = 0; }
+      vf_logf("],\"key\":["); first = 1;     /* address of the segments in `hit` in units of 32 MiB (to relate OS calls to them) */
+      for (int b = 0; b < 64; b++) if (hit & ((uintptr_t)1 << b)) { vf_logf("%s%ld", first ? "" : ",", (long)(((uintptr_t)ar->start + (f * 64 + (size_t)b) * MI_ARENA_BLOCK_SIZE) >> 25)); first = 0; }
       vf_logf("]}"); vf_log_line_end();
       return 1;
     }
@@ -223,7 +227,7 @@ static int astep_log(const char* fn, int kind, const volatile void* addr, uintpt
   if (a - sg == offsetof(mi_segment_t, thread_id) && (kind == VF_K_STORE || kind == VF_K_LOAD || kind == VF_K_CASS || kind == VF_K_CASW) && step_seg_ok(sg)) {
     if (kind == VF_K_LOAD) return 1;
     mi_segment_t* seg = (mi_segment_t*)sg;
-    vf_logf("{\"e\":\"astep\",\"t\":%d,\"f\":\"%s\",\"k\":\"%s\",\"w\":\"tid\",\"seg\":%d,\"arena\":%s,\"ok\":%s,\"o\":%d,\"n\":%d}", cur_t, fn, kn[kind], step_asegid(sg),
+    vf_logf("{\"e\":\"astep\",\"t\":%d,\"f\":\"%s\",\"k\":\"%s\",\"w\":\"tid\",\"seg\":%d,\"key\":[%ld],\"arena\":%s,\"ok\":%s,\"o\":%d,\"n\":%d}", cur_t, fn, kn[kind], step_asegid(sg), (long)(sg >> 25),
             seg->memid.memkind == MI_MEM_ARENA ? "true" : "false", ok ? "true" : "false", kind == VF_K_STORE ? -1 : step_tidof(oldv), step_tidof(newv)); vf_log_line_end();
     return 1;
   }
@@ -280,6 +284,7 @@ typedef struct { int t; int heapid; int give[64]; int ngive; int own_allocs; siz
 static role_t roles[VF_MAXT];
 static int snapshots_on = 0;
 static int exit_aligned = 0;
+static int exit_ownfree = 0;
 static int page_aligned = 0;     /* program page-aligned: two thirds of the blocks of the contended page are over-aligned (interior pointers) */
 static int page_alloc(int hi, size_t n) {
   static const size_t als[] = {32, 64, 64, 128, 256};
@@ -421,6 +426,8 @@ static void* exiter_main(void* arg) {
   }
   /* free some of its own blocks and some foreign ones, leave the rest behind */
   for (int i = 0; i < 4; i++) { int s = pick_live(); if (s >= 0 && vf_randn(2) == 0) op_free_slot(s, FR_free); vf_point(); }
+  /* --ownfree: also about half of the blocks it allocated itself (whole pages become free: purges are pending when the thread exits) */
+  if (exit_ownfree) for (int s = 0; s < MAXSLOTS; s++) if (slots[s].p && slots[s].heap == r->heapid && vf_randn(2) == 0) { op_free_slot(s, FR_free); vf_point(); }
   if (r->collect) do_collect((int)vf_randn(2));
   vf_logf("{\"e\":\"tdone\",\"t\":%d}", r->t); vf_log_line_end();   /* logged first: the thread's heap descriptors are released inside mi_thread_done */
   vf_in_call = 1; mi_thread_done(); vf_in_call = 0;
@@ -767,6 +774,7 @@ int main(int argc, char** argv) {
     else if (!strcmp(argv[i], "--size") && i + 2 < argc) { blk_lo = (size_t)atol(argv[++i]); blk_hi = (size_t)atol(argv[++i]); }
     else if (!strcmp(argv[i], "--sched") && i + 1 < argc) schedfile = argv[++i];
     else if (!strcmp(argv[i], "--steps") && i + 1 < argc) { steps_on = atoi(argv[++i]); }
+    else if (!strcmp(argv[i], "--ownfree") && i + 1 < argc) exit_ownfree = atoi(argv[++i]);
     else if (!strcmp(argv[i], "--park") && i + 1 < argc) { park_k = atoi(argv[++i]); }
     else if (!strcmp(argv[i], "--segs") && i + 1 < argc) { seg_snap_on = 1; seg_snap_every = atoi(argv[++i]); if (seg_snap_every < 1) seg_snap_every = 1; seg_quiet = conc_quiet; }
     else if (!strcmp(argv[i], "--snap") && i + 1 < argc) { snapshots_on = 1; snap_rate = atoi(argv[++i]); if (snap_rate < 1) snap_rate = 1; }
